@@ -82,6 +82,7 @@ func vfC06Draw(t *rapid.T) (c *vfC06Case) {
 	c.Kind = rapid.SampledFrom([]string{
 		"addr_same_family", "addr_other_family_only", "addr_both", "cname_unknown_target", "cname_target_with_addr",
 		"cname_target_other_family_only", "self_exception", "type_exception", "other_qtype_on_addr_name", "two_addrs", "cname_chain_local",
+		"wildcard_cname_to_name_under_itself",
 	}).Draw(t, "kind")
 	if c.Local && (c.Kind == "self_exception" || c.Kind == "type_exception") {
 		// an exception hands the name over to what would happen without the
@@ -132,6 +133,13 @@ func vfC06Draw(t *rapid.T) (c *vfC06Case) {
 		c.Table = []*filtering.LegacyRewrite{rw(name, mid), rw(mid, target), rw(target, ip)}
 		c.WantCN = target
 		c.WantIPs = []string{ip}
+	case "wildcard_cname_to_name_under_itself":
+		// "*.base -> proxy.base": the canonical name is matched by nothing
+		// but the wildcard that produced it, so it is resolved upstream
+		under := "proxy." + base
+		c.Table = []*filtering.LegacyRewrite{rw("*."+base, under)}
+		c.WantCN = under
+		c.Upstream = under
 	case "cname_target_other_family_only":
 		c.Table = []*filtering.LegacyRewrite{rw(key, target), rw(target, other)}
 		c.WantCN = target
@@ -249,7 +257,15 @@ func vfC06Check(c *vfC06Case) (err error) {
 		}
 	default:
 		var got []string
+		owner := c.Qname
+		if c.WantCN != "" {
+			// the addresses are those of the name the alias leads to
+			owner = c.WantCN
+		}
 		for _, rr := range ans {
+			if !strings.EqualFold(strings.TrimSuffix(rr.Header().Name, "."), owner) {
+				return fmt.Errorf("record %s is owned by %s, want %s", rr, rr.Header().Name, owner)
+			}
 			switch rr := rr.(type) {
 			case *dns.A:
 				got = append(got, rr.A.String())
